@@ -10,7 +10,9 @@ A *plan* is a JSON-able dict — the abstract input of spec/VerifyProps.tla with
      "root": "right"|"wrong"|"malformed"|"malformed2", "certfile": "ok"|"bad",
      "file": {"kind": "ok"|"malformed", "ents": [[path name, key id], ...]},        (file order)
      "mh": {"enc": "unc"|"comp"|"none", "pre": [key id, ...]},   what the message's keys hash is a hash of
-     "ui": {"exists","chain","hdr","key"} (ledger) , "pow": {"exists","chain","hdr","len"},
+     "ui": {"exists","chain","hdr","key", <shape>} (ledger) , "pow": {"exists","chain","hdr", <shape>},
+            <shape> = "sepc" (version separator: "dot" | member of SEP_TABLE | "na"), "len", "at", "m", "n",
+            "tail": how the bytes deviate from the documented layout, content included (VerifyProps.tla)
      "seed": int,                     everything left open by the classes is drawn from Random(seed)
      "variant": int (optional)}       ... except the listed alternatives (which foreign header, which link
                                       is corrupted how, how a file is malformed, ...): variant k takes the
@@ -144,7 +146,22 @@ def leg_shape(m):
     return len(m) >= 14 and m[:11] == LEG_PREFIX and _digit(m[11]) and _digit(m[13])
 
 
-SEPS = [b"x", b"x", b":", b"-", b"_", b" ", b",", b"/", b"0", b"\x00", b"\n"]
+# boundary members (the same tables as ExtTable / SepTable of spec/VerifyProps.tla, which checks them
+# against the signed bytes of every trace): byte strings on which acceptance might depend
+EXT_TABLE = {"lf": b"\n", "cr": b"\r", "crlf": b"\r\n", "lflf": b"\n\n", "nul": b"\x00", "sp": b" ",
+             "tab": b"\t", "vt": b"\x0b", "ff": b"\x0c", "fs": b"\x1c", "nel": b"\x85", "nbsp": b"\xa0"}
+SEP_TABLE = {"x": b"x", "colon": b":", "dash": b"-", "under": b"_", "comma": b",", "slash": b"/", "zero": b"0",
+             "lf": b"\n", "cr": b"\r", "nul": b"\x00", "sp": b" ", "tab": b"\t", "nel": b"\x85"}
+BOUNDARY = {10, 13, 0, 32, 9, 11, 12, 28, 133, 160}
+EXT_MEMBERS = list(EXT_TABLE) + ["rand1", "randn"]
+TAIL1 = [m for m in EXT_TABLE if len(EXT_TABLE[m]) == 1]
+PLAIN = {"sepc": "dot", "len": "exact", "at": "none", "m": "na", "n": 0, "tail": "any"}
+
+
+def sep_byte(t):
+    return b"." if t.get("sepc", "dot") in ("dot", "na") else SEP_TABLE[t["sepc"]]
+
+
 UI_FOREIGN = [b"HSM:UJ:5.4", b"HSM:UI;5.4", b"hsm:ui:5.4", b"XSM:UI:5.4", b"HSM:UI:a.4", b"HSM:UI:5.a",
               b"HSM-UI:5.4", b"POWHSM:5.4", b"HSM:SI:5.4", b" HSM:UI:5."]
 POW_FOREIGN = [b"P0WHSM:5.4::", b"POWHSM:5.4:;", b"POWHSM:5.4;:", b"POWHSN:5.4::", b"powhsm:5.4::",
@@ -165,29 +182,24 @@ def _pick(rr, options):
     return rr.choice(options)
 
 
-def ui_header(cls, rr):
-    if cls == "ok":
-        return UI_PREFIX + rr.choice(UI_VERSIONS).encode()
-    if cls == "sep":
+def ui_header(t, rr):
+    if t["hdr"] in ("ok", "sep"):
         v = rr.choice(UI_VERSIONS)
-        return UI_PREFIX + v[0].encode() + _pick(rr, SEPS) + v[2].encode()
+        return UI_PREFIX + v[0].encode() + sep_byte(t) + v[2].encode()
     h = _pick(rr, UI_FOREIGN + [None])
     while h is None or ui_shape(h):
         h = rr.randbytes(10)
     return h
 
 
-def pow_header(cls, rr, plat):
+def pow_header(t, rr, plat):
     """-> (header bytes, body format "pow" | "leg")."""
-    if cls == "current":
-        return POW_HEADER, "pow"
-    if cls == "sep":
-        return b"POWHSM:5" + _pick(rr, SEPS) + b"4::", "pow"
-    if cls == "legacy":
-        return LEG_PREFIX + rr.choice(LEG_VERSIONS).encode(), "leg"
-    if cls == "sepleg":
+    cls = t["hdr"]
+    if cls in ("current", "sep"):
+        return b"POWHSM:5" + sep_byte(t) + b"4::", "pow"
+    if cls in ("legacy", "sepleg"):
         v = rr.choice(LEG_VERSIONS)
-        return LEG_PREFIX + v[0].encode() + _pick(rr, SEPS) + v[2].encode(), "leg"
+        return LEG_PREFIX + v[0].encode() + sep_byte(t) + v[2].encode(), "leg"
     cands = [(h, "pow") for h in POW_FOREIGN] + [(None, "pow")]
     if plat == "ledger":
         cands += [(h, "leg") for h in LEG_FOREIGN] + [(None, "leg")]
@@ -197,13 +209,31 @@ def pow_header(cls, rr, plat):
     return h, fmt
 
 
-def adjust(msg, hdr_len, cls, rr):
-    body = len(msg) - hdr_len
-    if cls == "short":
-        cut = _pick(rr, (1, 1, 2, 8, body, rr.randrange(1, body + 1)))
-        return msg[:len(msg) - cut]
-    if cls == "long":
-        return msg + rr.randbytes(_pick(rr, (1, 1, 2, 32, rr.randrange(1, 64))))
+def apply_shape(msg, hdr_len, t, rr):
+    """The documented message `msg` with the deviation of its length that t declares; t["n"] is set to
+    the number of bytes actually cut / added."""
+    at = t.get("at", "none")
+    if at == "cut":
+        t["n"] = max(1, min(int(t["n"]), len(msg) - hdr_len))
+        return msg[:len(msg) - t["n"]]
+    if at in ("suffix", "prefix"):
+        m = t["m"]
+        if m in EXT_TABLE:
+            add = EXT_TABLE[m]
+        elif m == "rand1":
+            add = bytes([rr.choice([b for b in range(256) if b not in BOUNDARY])])
+        else:
+            add = rr.randbytes(max(2, int(t["n"])))
+        t["n"] = len(add)
+        return msg + add if at == "suffix" else add + msg
+    return msg
+
+
+def with_tail(msg, t):
+    """A documented-length message whose last bytes are the member t["tail"]."""
+    if t.get("tail", "any") in EXT_TABLE:
+        b = EXT_TABLE[t["tail"]]
+        return msg[:len(msg) - len(b)] + b
     return msg
 
 
@@ -325,17 +355,50 @@ def _timestamp(rr):
 
 
 def _pow_message(plan, keys, rr, sub):
-    hdr, fmt = pow_header(plan["pow"]["hdr"], rr, plan["plat"])
+    t = plan["pow"]
+    hdr, fmt = pow_header(t, rr, plan["plat"])
     kh = _mh_bytes(plan, keys, rr)
     if fmt == "leg":
+        if t["hdr"] == "foreign":
+            t["tail"] = "any"               # only a genuine legacy message gets its hash ground (realise)
+        elif t["tail"] in EXT_TABLE and plan["mh"]["enc"] == "none":
+            kh = kh[:31] + EXT_TABLE[t["tail"]]
         msg = hdr + kh
     else:
         platform = b"led" if plan["plat"] == "ledger" else b"sgx"
-        msg = pack_pow(hdr, platform, rr.randbytes(32), kh, rr.randbytes(32), rr.randbytes(8), _timestamp(rr))
-    msg = adjust(msg, len(hdr), plan["pow"]["len"], rr)
+        msg = with_tail(pack_pow(hdr, platform, rr.randbytes(32), kh, rr.randbytes(32), rr.randbytes(8),
+                                 _timestamp(rr)), t)
+    msg = apply_shape(msg, len(hdr), t, rr)
     sub["pow_header"] = hdr.hex()
     sub["pow_len"] = len(msg)
     return msg
+
+
+def _grind_legacy_tail(plan, keys, rr):
+    """A genuine legacy signer message ENDS with its keys hash: to make it end in a given byte, the last
+    key that goes into the hash is re-drawn until SHA-256 does (about 256 draws; libsecp256k1 derives the
+    candidate public keys).  Returns False when there is nothing to grind on."""
+    import secp256k1
+    t, mh = plan["pow"], plan["mh"]
+    want = EXT_TABLE[t["tail"]]
+    if len(want) != 1 or not mh["pre"]:
+        return False
+    kid = mh["pre"][-1]
+    comp = mh["enc"] == "comp"
+    def enc(k):
+        return k.pub33 if comp else k.pub65
+    parts = [enc(keys[k]) for k in mh["pre"]]
+    idx = [i for i, k in enumerate(mh["pre"]) if k == kid]
+    for _ in range(20000):
+        d = rr.randrange(1, certv1.N)
+        pub = secp256k1.PrivateKey(d.to_bytes(32, "big"), raw=True).pubkey.serialize(compressed=comp)
+        for i in idx:
+            parts[i] = pub
+        if hashlib.sha256(b"".join(parts)).digest()[-1:] == want:
+            keys[kid] = certv1.Key(d)
+            assert enc(keys[kid]) == pub
+            return True
+    return False
 
 
 LEAF_BREAKS = ["sig_flip", "msg_flip", "tweak_flip", "tweak_remove", "sig_other_key"]
@@ -357,10 +420,12 @@ def _ledger_chain(rr, ui_msg, pow_msg, with_ui=True, with_signer=True):
 def _realise_ledger(plan, keys, directory, tag, rr, real):
     sub = real.sub
     ui, pw = plan["ui"], plan["pow"]
-    ui_msg = pack_ui(ui_header(ui["hdr"], rr), rr.randbytes(32), keys[ui["key"]].pub33, rr.randbytes(32),
+    ui_msg = pack_ui(ui_header(ui, rr), rr.randbytes(32), keys[ui["key"]].pub33, rr.randbytes(32),
                      rr.choice((b"\x00\x01", b"\x00\x00", b"\xff\xff", b"\x01\x00", rr.randbytes(2))))
+    ui_msg = apply_shape(with_tail(ui_msg, ui), 10, ui, rr)
     pow_msg = _pow_message(plan, keys, rr, sub)
-    sub["ui_header"] = ui_msg[:10].hex()
+    sub["ui_header"] = ui_msg[:12].hex()
+    sub["ui_len"] = len(ui_msg)
     other_platform = ui["exists"] == "f" and pw["exists"] == "f" and rr.random() < 0.25
     drop_ui = ui["exists"] == "f" and rr.random() < 0.5
     drop_signer = pw["exists"] == "f" and rr.random() < 0.5
@@ -572,12 +637,20 @@ def realise(plan, directory, tag):
     global _variant
     _variant = plan.get("variant")
     rr = random.Random(plan["seed"])
+    plan = json.loads(json.dumps(plan))          # private copy: "n" / "tail" record what was really built
+    for t in (plan["ui"], plan["pow"]):
+        for k, v in PLAIN.items():
+            t.setdefault(k, v)
     real = Real()
     real.plan = plan
     ids = {k for (_n, k) in plan["file"]["ents"]} | set(plan["mh"]["pre"]) | {1}
     if plan["plat"] == "ledger":
         ids.add(plan["ui"]["key"])
     keys = {i: certv1.new_key(rr) for i in range(1, max(ids) + 1)}
+    t = plan["pow"]
+    if t["tail"] in EXT_TABLE and t["hdr"] in ("legacy", "sepleg") and plan["mh"]["enc"] != "none":
+        if not _grind_legacy_tail(plan, keys, rr):
+            t["tail"] = "any"
     real.k33 = [keys[i].pub33 for i in range(1, max(ids) + 1)]
     ppath = os.path.join(directory, "%s_pubkeys.json" % tag)
     _pubkeys_file(plan, keys, ppath, rr, real.sub)
@@ -711,7 +784,10 @@ def pubkey_lines(text):
 # ------------------------------------------------------------------------------------------------
 # trace
 # ------------------------------------------------------------------------------------------------
-NA_UI = {"exists": "na", "chain": "na", "hdr": "na", "key": 0}
+NA_UI = {"exists": "na", "chain": "na", "hdr": "na", "sepc": "na", "key": 0, "len": "na", "at": "na",
+         "m": "na", "n": 0, "tail": "na"}
+_UI_FIELDS = ("exists", "chain", "hdr", "sepc", "key", "len", "at", "m", "n", "tail")
+_POW_FIELDS = ("exists", "chain", "hdr", "sepc", "len", "at", "m", "n", "tail")
 
 
 def abstract_of(plan):
@@ -721,8 +797,8 @@ def abstract_of(plan):
                      "ents": [{"path": list(n.encode("utf-8")), "key": k} for (n, k) in plan["file"]["ents"]]},
             "btc": list(BTC_PATH.encode()),
             "mh": {"enc": plan["mh"]["enc"], "pre": list(plan["mh"]["pre"])},
-            "ui": dict(plan["ui"]) if plan["plat"] == "ledger" else dict(NA_UI),
-            "pow": dict(plan["pow"])}
+            "ui": {k: plan["ui"][k] for k in _UI_FIELDS} if plan["plat"] == "ledger" else dict(NA_UI),
+            "pow": {k: plan["pow"][k] for k in _POW_FIELDS}}
 
 
 def trace_of(tid, real, outcome, printed):
@@ -748,6 +824,7 @@ SITES = [
     (r"does not contain a Signer attestation", "NoSigner"),
     (r"Invalid Signer attestation: error validating", "SignerInvalid"),
     (r"Invalid Signer attestation message header", "SignerHeader"),
+    (r"UI attestation message length mismatch", "UiLength"),
     (r"longer than expected", "LegacyLong"),
     (r"attestation message length mismatch", "PowLength"),
     (r"public keys hash mismatch", "HashMismatch"),
@@ -797,6 +874,9 @@ def plan_from_behaviour(b, rng):
                      "ents": [[names[tuple(e["path"])], e["key"]] for e in inp["file"]["ents"]]},
             "mh": {"enc": inp["mh"]["enc"], "pre": list(inp["mh"]["pre"])},
             "ui": dict(inp["ui"]), "pow": dict(inp["pow"]), "seed": rng.getrandbits(48)}
+    for t in (plan["ui"], plan["pow"]):
+        if t.get("m") == "randn":               # "many arbitrary bytes": how many is open
+            t["n"] = rng.choice((2, 3, 32, rng.randrange(2, 64)))
     return plan
 
 
@@ -825,14 +905,24 @@ def random_plan(rng):
     plan = {"plat": plat, "args": "ok", "root": "right", "certfile": "ok",
             "file": {"kind": "ok", "ents": ents},
             "mh": {"enc": "unc", "pre": _sorted_keys(ents)},
-            "ui": {"exists": "t", "chain": "intact", "hdr": "ok", "key": btc[0] if btc else 1},
-            "pow": {"exists": "t", "chain": "intact",
-                    "hdr": rng.choice(("current", "current", "legacy")) if plat == "ledger" else "current",
-                    "len": "exact"},
+            "ui": dict(PLAIN, exists="t", chain="intact", hdr="ok", key=btc[0] if btc else 1),
+            "pow": dict(PLAIN, exists="t", chain="intact",
+                        hdr=rng.choice(("current", "current", "legacy")) if plat == "ledger" else "current"),
             "seed": rng.getrandbits(48)}
     for _ in range(rng.choice((0, 0, 1, 1, 1, 2, 2, 3, 5))):
         deviate(plan, rng)
     return plan
+
+
+def _deviate_len(t, rng, body):
+    if t["len"] != "exact" or t["tail"] != "any":
+        return
+    if rng.random() < 0.35:
+        t.update(len="short", at="cut", m="na", n=rng.choice((1, 1, 2, 8, body, rng.randrange(1, body + 1))))
+    else:
+        m = rng.choice(EXT_MEMBERS)
+        t.update(len="long", at=rng.choice(("suffix", "suffix", "prefix")), m=m,
+                 n=len(EXT_TABLE[m]) if m in EXT_TABLE else (1 if m == "rand1" else rng.randrange(2, 64)))
 
 
 def deviate(plan, rng, sep=True):
@@ -840,9 +930,9 @@ def deviate(plan, rng, sep=True):
     ents = f["ents"]
     nk = max([k for (_n, k) in ents] + plan["mh"]["pre"] + [plan["ui"]["key"], 1])
     dims = ["args", "root", "certfile", "file", "file", "file", "mh", "mh", "pow.exists", "pow.chain",
-            "pow.hdr", "pow.len"]
+            "pow.hdr", "pow.len", "pow.len", "pow.tail"]
     if plan["plat"] == "ledger":
-        dims += ["ui.exists", "ui.chain", "ui.hdr", "ui.key"]
+        dims += ["ui.exists", "ui.chain", "ui.hdr", "ui.key", "ui.len", "ui.tail"]
     d = rng.choice(dims)
     if d == "args":
         plan["args"] = rng.choice(("nocert", "nopub"))
@@ -902,20 +992,34 @@ def deviate(plan, rng, sep=True):
         plan["pow"]["chain"] = "broken"
     elif d == "pow.hdr":
         cur = plan["pow"]["hdr"]
+        if cur not in ("current", "legacy"):
+            return
         opts = ["foreign", "foreign"]
-        if plan["plat"] == "sgx":
+        if plan["plat"] == "sgx" and cur == "current" and plan["pow"]["tail"] in ["any"] + TAIL1 \
+                and not (plan["pow"]["at"] == "cut" and plan["pow"]["n"] > 32):
             opts.append("legacy")
         if sep:
             opts.append("sepleg" if cur == "legacy" else "sep")
-        plan["pow"]["hdr"] = rng.choice(opts)
-    elif d == "pow.len":
-        plan["pow"]["len"] = rng.choice(("short", "long"))
+        plan["pow"]["hdr"] = h = rng.choice(opts)
+        plan["pow"]["sepc"] = "na" if h == "foreign" else (rng.choice(list(SEP_TABLE)) if h.startswith("sep")
+                                                            else "dot")
+    elif d in ("pow.len", "ui.len"):
+        _deviate_len(plan[d[:-4]], rng, 99 if d == "ui.len" else
+                     (32 if plan["pow"]["hdr"] in ("legacy", "sepleg") else 115))
+    elif d in ("pow.tail", "ui.tail"):
+        t = plan[d[:-5]]
+        if t["len"] == "exact" and t["tail"] == "any":
+            leg = d == "pow.tail" and t["hdr"] in ("legacy", "sepleg")
+            t["tail"] = rng.choice(TAIL1 if leg else list(EXT_TABLE))
     elif d == "ui.exists":
         plan["ui"]["exists"] = "f"
     elif d == "ui.chain":
         plan["ui"]["chain"] = "broken"
     elif d == "ui.hdr":
-        plan["ui"]["hdr"] = rng.choice(["foreign", "foreign"] + (["sep"] if sep else []))
+        if plan["ui"]["hdr"] != "ok":
+            return
+        plan["ui"]["hdr"] = h = rng.choice(["foreign", "foreign"] + (["sep"] if sep else []))
+        plan["ui"]["sepc"] = "na" if h == "foreign" else rng.choice(list(SEP_TABLE))
     elif d == "ui.key":
         others = [k for (_n, k) in ents if k != plan["ui"]["key"]]
         plan["ui"]["key"] = rng.choice(others + [nk + 1])
